@@ -12,7 +12,6 @@ import (
 // KRB-PRIV (RFC 4120 5.7.1) and the change-password protocol's framing (RFC 3244 section 2), as far
 // as a reference kpasswd server needs them.
 
-
 type EncKrbPrivPart struct {
 	UserData  []byte
 	Timestamp *time.Time
